@@ -339,7 +339,7 @@ def run(ctx):
     from rules.common import borrow
     r5 = borrow(c01.r4_emission(ctx), "C02.R5", "each back-end emits every collected piece, in order",
                 "`all denote the same text`: a piece dropped by one back-end only (e.g. while regrouping a long value for the view) "
-                "makes the flavours diverge on that value", floor=20)
+                "makes the flavours diverge on that value", floor=3)
     return [r1_siblings(ctx), r2_output_table(ctx), r3_input_table(ctx), r4_scoping(ctx), r5, r6_literal_text(ctx)]
 
 
